@@ -328,9 +328,12 @@ class UnaryExpression(MathExpression):
 
 
 def _leads_with_literal_power(node: Optional[MathExpression]) -> bool:
-    """Whether the text of a node starts with a literal raised to a power"""
+    """Whether the text of a node starts with a literal raised to a power, or with
+    the factorial of a literal"""
     while isinstance(node, (MultiplyExpression, DivideExpression)):
         node = node.left
+    if isinstance(node, FactorialExpression):
+        return isinstance(node.get_child(), ConstantExpression)
     return isinstance(node, PowerExpression) and isinstance(
         node.left, ConstantExpression
     )
